@@ -506,7 +506,10 @@ pub fn load_replay(path: &str) -> J {
 
 /// Run `f`, turning a panic into an Err(message).
 pub fn catch<T>(f: impl FnOnce() -> T) -> Result<T, String> {
-    match std::panic::catch_unwind(std::panic::AssertUnwindSafe(f)) {
+    IN_CATCH.with(|c| c.set(c.get() + 1));
+    let r = std::panic::catch_unwind(std::panic::AssertUnwindSafe(f));
+    IN_CATCH.with(|c| c.set(c.get() - 1));
+    match r {
         Ok(v) => Ok(v),
         Err(p) => Err(if let Some(s) = p.downcast_ref::<&str>() {
             s.to_string()
@@ -525,11 +528,16 @@ pub fn install_quiet_panic_hook() {
             .location()
             .map(|l| format!("{}:{}", l.file(), l.line()))
             .unwrap_or_default();
+        if IN_CATCH.with(|c| c.get()) == 0 {
+            // a panic of the harness itself: machinery failure, make it visible
+            eprintln!("machinery panic: {} at {}", info, loc);
+        }
         LAST_PANIC_LOC.with(|c| *c.borrow_mut() = loc);
     }));
 }
 
 thread_local! {
+    pub static IN_CATCH: std::cell::Cell<u32> = const { std::cell::Cell::new(0) };
     pub static LAST_PANIC_LOC: std::cell::RefCell<String> = const { std::cell::RefCell::new(String::new()) };
 }
 
